@@ -127,7 +127,24 @@ class C20(fw.Prop):
             def impl():
                 from dlms_cosem.protocol.xdlms.conformance import Conformance
                 c = fresh_decode(lambda: Conformance.from_bytes(b"\x00" + w.to_bytes(3, "big")))
-                return "ok " + str(sum((1 << k) for k, n in enumerate(CONF_NAMES) if getattr(c, n)))
+                mask = lambda c_: sum((1 << k) for k, n in enumerate(CONF_NAMES) if getattr(c_, n))
+                out = "ok " + str(mask(c))
+                # the same block where it lives: in an initiate response (quality of service absent and present) and request
+                from dlms_cosem.protocol.xdlms import InitiateRequest, InitiateResponse
+                block = b"\x5f\x1f\x04\x00" + w.to_bytes(3, "big")
+                for name, cls, raw, attr in (("initiate-response", InitiateResponse, b"\x08\x00\x06" + block + b"\x01\xf4\x00\x07", "negotiated_conformance"),
+                                             ("initiate-response-with-qos", InitiateResponse, b"\x08\x01\x05\x06" + block + b"\x01\xf4\x00\x07", "negotiated_conformance"),
+                                             ("initiate-request", InitiateRequest, b"\x01\x00\x00\x00\x06" + block + b"\xff\xff", "proposed_conformance"),
+                                             ("initiate-request-with-qos", InitiateRequest, b"\x01\x00\x00\x01\x03\x06" + block + b"\x04\x00", "proposed_conformance")):
+                    try:
+                        got = mask(getattr(cls.from_bytes(raw), attr))
+                    except fw._Timeout:
+                        raise
+                    except Exception as e:  # noqa
+                        got = "raised " + type(e).__name__
+                    if got != mask(c):
+                        out += f" !block-inside-{name}-decodes-to:{got}"
+                return out
             return fw.Case(f"fld conf dec 00{w:06x}", impl, "prop", d, tags)
         if op == "scf_to":
             s, a, e, b, c = d["v"]
@@ -212,6 +229,51 @@ class C20(fw.Prop):
                         problems.append(f"{name}-control:{ctrl:#04x}!={want_ctrl:#04x}")
                 return "ok frame-fields" + ("" if not problems else " " + ",".join(problems))
             return fw.Case("echo frame-fields", impl, "prop", d, tags)
+        if op == "frame_kinds":
+            # format word and control byte of every kind of frame, both ways: what the library writes for a frame with these flags,
+            # and what it reads from the bytes (the bytes are checked by hand first, so a wrong reading is the library's)
+            kind, seg, fin, r = d["kind"], d["seg"], d["fin"], d["r"]
+
+            def impl():
+                from dlms_cosem.hdlc import address, frames
+                c, srv = address.HdlcAddress(16, None, "client"), address.HdlcAddress(1, 17, "server")
+                kw = dict(segmented=bool(seg), final=bool(fin))
+                if kind == "snrm":
+                    f, want_ctrl = frames.SetNormalResponseModeFrame(srv, c, **kw), 0x83 | 0x10
+                elif kind == "disc":
+                    f, want_ctrl = frames.DisconnectFrame(srv, c, **kw), 0x43 | 0x10
+                elif kind == "ua":
+                    f, want_ctrl = frames.UnNumberedAcknowledgmentFrame(c, srv, b"\x81\x80\x00", **kw), 0x63 | 0x10
+                elif kind == "ui":
+                    f, want_ctrl = frames.UnnumberedInformationFrame(c, srv, b"\x01\x02", **kw), 0x03 | (0x10 if fin else 0)
+                elif kind == "rr":
+                    f, want_ctrl = frames.ReceiveReadyFrame(c, srv, receive_sequence_number=r, **kw), (r << 5) | 0x10 | 0x01
+                else:
+                    f = frames.InformationFrame(c, srv, b"\x01\x02", send_sequence_number=(r + 3) % 8, receive_sequence_number=r, **kw)
+                    want_ctrl = (r << 5) | (0x10 if fin else 0) | (((r + 3) % 8) << 1)
+                b = bytes(f.to_bytes())
+                problems = []
+                alen = 1 + 2 if kind in ("snrm", "disc") else 1 + 2
+                fmt, ctrl = int.from_bytes(b[1:3], "big"), b[3 + alen]
+                if fmt != (0xA000 | (0x0800 if seg else 0) | (len(b) - 2)):
+                    problems.append(f"format-written:{fmt:#06x}")
+                if kind in ("i", "ui", "rr") and ctrl != want_ctrl:
+                    problems.append(f"control-written:{ctrl:#04x}!={want_ctrl:#04x}")
+                if not problems and kind != "snrm":
+                    try:
+                        g = type(f).from_bytes(b)
+                        if bool(g.segmented) != bool(seg):
+                            problems.append(f"segmentation-bit-read-as:{g.segmented}")
+                        if kind in ("i", "ui") and bool(g.final) != bool(fin):
+                            problems.append(f"final-bit-read-as:{g.final}")
+                        if bytes(g.to_bytes()) != b:
+                            problems.append("parsed-frame-writes:" + bytes(g.to_bytes()).hex())
+                    except fw._Timeout:
+                        raise
+                    except Exception as e:  # noqa
+                        problems.append("valid-frame-refused:" + type(e).__name__)
+                return "ok frame-kinds" + ("" if not problems else " " + ",".join(problems))
+            return fw.Case("echo frame-kinds", impl, "prop", d, tags)
         if op == "frame_range":
             # sequence numbers outside 0..7 have no pattern: a frame cannot be made with them
             which, v = d["which"], d["v"]
@@ -241,13 +303,16 @@ class C20(fw.Prop):
                 out = "ok " + " ".join(b01(x) for x in (c.invalid, c.doubtful, c.different_base, c.invalid_status, c.daylight_saving_active))
                 # the same byte where it lives: as the last byte of a date-time (decoded and written back)
                 from dlms_cosem import time as t
-                raw = bytes.fromhex("07e40106ff00030000ffc4") + bytes([v])
-                dt, st = t.datetime_from_bytes(raw)
-                if st != c:
-                    out += f" !status-inside-a-date-time-decodes-to:{st!r}"
-                back = t.datetime_to_bytes(dt, st)
-                if back[-1] != ClockStatus.from_bytes(bytes([v])).to_bytes()[0]:
-                    out += f" !status-inside-a-date-time-written-back-as:{back[-1]:#04x}"
+                for head in ("07e40106ff00030000ffc4", "07e40106ff000300008000", "07e40701ff0c0000ff0000", "07e40701030c00000a003c", "07e4021dff173b3b63fe20"):
+                    raw = bytes.fromhex(head) + bytes([v])
+                    dt, st = t.datetime_from_bytes(raw)
+                    if st != c:
+                        out += f" !status-inside-a-date-time-({head[-4:]})-decodes-to:{st!r}"
+                        break
+                    back = t.datetime_to_bytes(dt, st)
+                    if back[-1] != ClockStatus.from_bytes(bytes([v])).to_bytes()[0]:
+                        out += f" !status-inside-a-date-time-({head[-4:]})-written-back-as:{back[-1]:#04x}"
+                        break
                 return out
             return fw.Case(f"fld clk from {v}", impl, "prop", d, tags)
         if op == "ctl_const":
@@ -401,6 +466,11 @@ class C20(fw.Prop):
                 for fin in (0, 1):
                     for seg in (0, 1):
                         yield mk({"op": "frame_fields", "ssn": ssn, "rsn": rsn, "fin": fin, "seg": seg, "n": (ssn * 8 + rsn) % 50})
+        for kind in ("snrm", "disc", "ua", "ui", "rr", "i"):
+            for seg in (0, 1):
+                for fin in (0, 1):
+                    for r in (range(8) if kind in ("rr", "i") else [0]):
+                        yield mk({"op": "frame_kinds", "kind": kind, "seg": seg, "fin": fin, "r": r})
         # conformance: all 2^17 flag sets (thorough) / all sets of weight <=2, >=15 + 8192 random (quick)
         if deep:
             for m in range(1 << 17):
